@@ -661,3 +661,12 @@ Theorem C20_url_referrers_at_exact_go :
     query_unescape (query_escape at_) = Some at_.
 Proof. exact url_referrers_at_exact_go. Qed.
 Print Assumptions C20_url_referrers_at_exact_go.
+
+(* ---------- net/url's escaping table tied to the toolchain source ---------- *)
+
+Theorem C20_neturl_classes_from_source :
+  forall c, (c < 256)%N ->
+    host_plain c = mem_c c neturl_encodeHost /\ host_plain c = mem_c c neturl_encodeZone /\
+    query_plain c = mem_c c neturl_encodeQueryComponent /\ is_hex_c c = mem_c c neturl_hexChar.
+Proof. exact neturl_classes_from_source. Qed.
+Print Assumptions C20_neturl_classes_from_source.
